@@ -137,6 +137,16 @@ def is_lazy(a):
     return isinstance(a._zarray, LazyZarrArray)
 
 
+def pool_info(case, arrs):
+    """What the classifiers / the model need to know about the pool, read off the real arrays before the call:
+    laziness, lazy ancestors, chunk sizes, object identity (`x.rechunk(x.chunks)` returns `x` itself) and which arrays
+    had `compute()` called on them."""
+    ident = [next(j for j in range(i + 1) if arrs[j] is arrs[i]) for i in range(len(arrs))]
+    return {"lazy": [is_lazy(a) for a in arrs], "deps": [lazy_ancestors(arrs, i) for i in range(len(arrs))],
+            "src_chunks": [list(a.chunksize) for a in arrs], "ident": ident,
+            "computed": [sp["op"] == "computed" for sp in case["pool"]]}
+
+
 def lazy_ancestors(arrs, i):
     """indices of pool arrays that are lazy and whose storage the plan of arrs[i] reads (ancestors in its dag)"""
     import networkx as nx
@@ -288,8 +298,7 @@ def run_case(env, case):
 
     arrs, vals = build_pool(env, case)
     # laziness / dependencies must be read off *before* the call: re-targeting replaces `_zarray`
-    info0 = {"lazy": [is_lazy(a) for a in arrs], "deps": [lazy_ancestors(arrs, i) for i in range(len(arrs))],
-             "src_chunks": [list(a.chunksize) for a in arrs]}
+    info0 = pool_info(case, arrs)
     targets = build_targets(env, case)
     exp = expectation(case, vals, targets)
     ex = executors()[case["executor"]]()
@@ -378,18 +387,31 @@ def classify(case, info):
     """Name of the known defect whose triggering condition the case satisfies, or None."""
     pairs = case["pairs"]
     lazy, deps = info["lazy"], info["deps"]
+    ident = info.get("ident") or list(range(len(lazy)))
+
+    def sid(p):
+        return ident[p["src"]]
+
+    def noregion(p):
+        return p["region"] is None or all(tuple(r) == (None, None, None) for r in p["region"])
+
+    def shard_rechunk(p):
+        # `_store_array` stores `source.rechunk(target.shards)` - a new array derived from the source
+        t = p["target"]
+        return t["kind"] == "array" and bool(t.get("shards")) and list(t["shards"]) != info["src_chunks"][p["src"]]
+
+    # pairs that re-target their (lazy) source in place
+    moves = [(k, sid(p)) for k, p in enumerate(pairs) if lazy[p["src"]] and noregion(p) and not shard_rechunk(p)]
     # (c) the same lazy source again, re-targeted later: the earlier pair loses its location
-    for j, pj in enumerate(pairs):
-        if lazy[pj["src"]] and pj["region"] is None or (pj["region"] is not None and lazy[pj["src"]]
-                                                          and all(tuple(r) == (None, None, None) for r in pj["region"])):
-            for i in range(j):
-                if pairs[i]["src"] == pj["src"]:
-                    return "store-lazy-source-twice"
-    # re-targeted lazy source with a dependant among the listed sources
-    moved = {p["src"] for p in pairs if lazy[p["src"]] and (p["region"] is None or
-                                                             all(tuple(r) == (None, None, None) for r in p["region"]))}
+    for j, s_ in moves:
+        for i in range(j):
+            if sid(pairs[i]) == s_:
+                return "store-lazy-source-with-dependant" if shard_rechunk(pairs[i]) else "store-lazy-source-twice"
+    # a re-targeted lazy source with a dependant among the (effective) listed sources
+    moved = {s_ for _, s_ in moves}
     for p in pairs:
-        if any(d in moved for d in deps[p["src"]]):
+        eff = [ident[d] for d in deps[p["src"]]]
+        if any(d in moved for d in eff):
             return "store-lazy-source-with-dependant"
     for p in pairs:
         t = p["target"]
@@ -399,6 +421,14 @@ def classify(case, info):
         if region is not None and not full:
             if t["kind"] != "array":
                 continue
+            # a region that the unchanged code rejects (misaligned by its own rule, or of another shape than the
+            # source) is never explained by a known defect: if it was accepted, something else is broken
+            shape = case["shape"]
+            for k, ((s, e, st), n, cs) in enumerate(zip(region, t["shape"], t["chunks"])):
+                if (s is not None and s % cs != 0) or (e is not None and e % cs != 0 and e != n):
+                    return None
+                if len(region) == len(t["shape"]) and len(range(*slice(s, e, st).indices(n))) != shape[k]:
+                    return None
             if any(r[2] not in (None, 1) for r in region):
                 return "region-step-ignored"
             if len(region) < len(t["shape"]):
